@@ -186,7 +186,43 @@ def run(chk):
         vn, dn = [src(e) for e in loops[0].target.elts]
         iff = loops[0].body[0]
         ok = src(iff.test) in (f"{dn} == desc", f"desc == {dn}") and len(iff.body) == 1 and isinstance(iff.body[0], ast.Return) and src(iff.body[0].value) == vn
-    chk.check(ok, "R4", f"{OD}:ODVariable.encode_desc | value whose description matches", ed.loc(), "")
+    if not ok:
+        # the other shape: the match is put into a local (for/else with break, or next(generator, None)) and returned afterwards;
+        # "nothing found" must then be told from the raw value 0 by identity, not by truth value
+        found = None
+        for n in own_nodes(ed.node):
+            if isinstance(n, ast.Assign) and isinstance(n.targets[0], ast.Name) and isinstance(n.value, ast.Call) and dotted(n.value.func) == "next" and len(n.value.args) == 2 \
+                    and isinstance(n.value.args[0], ast.GeneratorExp) and len(n.value.args[0].generators) == 1:
+                g_ = n.value.args[0].generators[0]
+                if src(g_.iter) == "self.value_descriptions.items()" and isinstance(g_.target, ast.Tuple) and len(g_.target.elts) == 2 and len(g_.ifs) == 1:
+                    vn, dn = [src(e) for e in g_.target.elts]
+                    if src(g_.ifs[0]) in (f"{dn} == desc", f"desc == {dn}") and src(n.value.args[0].elt) == vn and src(n.value.args[1]) == "None":
+                        found = n.targets[0].id
+        for lp in loops:
+            if src(lp.iter) == "self.value_descriptions.items()" and isinstance(lp.target, ast.Tuple) and len(lp.body) == 1 and isinstance(lp.body[0], ast.If) and lp.orelse:
+                vn, dn = [src(e) for e in lp.target.elts]
+                iff = lp.body[0]
+                if src(iff.test) in (f"{dn} == desc", f"desc == {dn}") and len(iff.body) == 2 and isinstance(iff.body[0], ast.Assign) and isinstance(iff.body[1], ast.Break) \
+                        and src(iff.body[0].value) == vn and isinstance(iff.body[0].targets[0], ast.Name) \
+                        and [src(x) for x in lp.orelse] == [f"{iff.body[0].targets[0].id} = None"]:
+                    found = iff.body[0].targets[0].id
+        if found is not None:
+            rets = [n for n in own_nodes(ed.node) if isinstance(n, ast.Return) and n.value is not None and src(n.value) == found]
+            rz = [n for n in own_nodes(ed.node) if isinstance(n, ast.Raise) and "ValueError" in src(n)]
+            by_truth = []
+            for n in rets + rz:
+                for e, p in fed.facts_at(n):
+                    if src(e) in (found, f"not {found}"):
+                        by_truth.append(src(e))
+            by_ident = all(any((src(e) == f"{found} is None" and p) or (src(e) == f"{found} is not None" and not p) for e, p in fed.facts_at(n)) for n in rz) and bool(rz)
+            if by_truth:
+                chk.bad("R4", f"{OD}:ODVariable.encode_desc | value whose description matches", ed.loc(),
+                        f"the match `{found}` is tested by truth value (`{by_truth[0]}`): a description of the raw value 0 is reported as unknown")
+                ok = None
+            else:
+                ok = bool(rets) and by_ident
+    if ok is not None:
+        chk.check(ok, "R4", f"{OD}:ODVariable.encode_desc | value whose description matches", ed.loc(), "")
     chk.check(any(isinstance(n, ast.Raise) and "ValueError" in src(n) for n in own_nodes(ed.node)), "R4", f"{OD}:ODVariable.encode_desc | unknown description raises", ed.loc(), "")
     avd = repo.func(OD, "ODVariable.add_value_description", "C20.R4")
     chk.check(any(src(n) == "self.value_descriptions[value] = descr" for n in own_nodes(avd.node) if isinstance(n, ast.Assign)), "R4", f"{OD}:ODVariable.add_value_description", avd.loc(), "")
